@@ -10,7 +10,7 @@ package reftable
 // ---------------------------------------------------------------------------------------------
 
 // groups of bookkeeping ghosts (declared further down) for use in modifies clauses
-//@ ghostgroup yielded = yRefSeq, yRefName, yRefIdx, yRefVal, yRefValLen, yRefTV, yRefTVLen, yRefTarget, yRefDel, wRefAtYield, refsDone, yLogSeq, yLogName, yLogIdx, yLogNew, yLogNewLen, yLogOld, yLogOldLen, yLogPName, yLogEmail, yLogTime, yLogTZ, yLogMsg, wLogAtYield, logsDone
+//@ ghostgroup yielded = noneYet, yRefSeq, yRefName, yRefIdx, yRefVal, yRefValLen, yRefTV, yRefTVLen, yRefTarget, yRefDel, wRefAtYield, refsDone, yLogSeq, yLogName, yLogIdx, yLogNew, yLogNewLen, yLogOld, yLogOldLen, yLogPName, yLogEmail, yLogTime, yLogTZ, yLogMsg, wLogAtYield, logsDone
 //@ ghostgroup taken = wRefSeq, wRefName, wRefIdx, wRefVal, wRefValLen, wRefTV, wRefTVLen, wRefTarget, wLogSeq, wLogName, wLogIdx, wLogNew, wLogNewLen, wLogOld, wLogOldLen, wLogPName, wLogEmail, wLogTime, wLogTZ, wLogMsg
 
 //@ func getVarInt
@@ -708,6 +708,7 @@ package reftable
 // ghost: the merged view and the key of the most recent Merged.SeekRef / SeekLog (C07: the compaction reads the merge
 // of exactly its input tables, from the very start)
 //@ ghost seekOn *Merged
+//@ ghost noneYet bool
 //@ ghost seekName string
 //@ ghost seekIdx uint64
 //@ func (*Merged).SeekRef
@@ -716,16 +717,22 @@ package reftable
 //@   modifies buflen, bufdata, lastDelta, lastSought, anyof(*tableIter), anyof(*indexedTableRefIter), anyof(*blockIter), yielded
 //@   sets seekOn = m
 //@   sets seekName = name
+//@   sets noneYet = true
 //@   modifies seekIdx
 //@   ensures result1 == nil ==> result0 != nil && iref(result0.impl) != 0 && istype(result0.impl, *mergedIter) && asptr(result0.impl, *mergedIter).suppressDeletions == m.suppressDeletions && asptr(result0.impl, *mergedIter).typ == 'r' && wfMI(asptr(result0.impl, *mergedIter))
 
+// ghost parameter afterRefs: 1 at the call that starts the reflog pass of a compaction (there the ref pass must have run
+// to exhaustion), 0 everywhere else
 //@ func (*Merged).SeekLog
 //@   props C03 C19 C07
+//@   ghostparams afterRefs
 //@   requires m != nil
+//@   requires[ref-pass-exhausted] afterRefs == 1 ==> refsDone
 //@   modifies buflen, bufdata, lastDelta, lastSought, anyof(*tableIter), anyof(*indexedTableRefIter), anyof(*blockIter), yielded
 //@   sets seekOn = m
 //@   sets seekName = refname
 //@   sets seekIdx = updateIndex
+//@   sets noneYet = true
 //@   ensures result1 == nil ==> result0 != nil && iref(result0.impl) != 0 && istype(result0.impl, *mergedIter) && asptr(result0.impl, *mergedIter).suppressDeletions == m.suppressDeletions && asptr(result0.impl, *mergedIter).typ == 'g' && wfMI(asptr(result0.impl, *mergedIter))
 
 // A table's update-index range and hash id, as functions of the table value (tables are immutable once opened).
@@ -1226,13 +1233,13 @@ package reftable
 //@ func (*Stack).writeCompact
 //@   props C07 C13
 //@   requires wfStack(st) && wr != nil && 0 <= first && first <= last && last < len(st.stack)
-//@   ensures[all-records-visited] result == nil ==> refsDone && logsDone
+//@   callsite (*Merged).SeekLog 1 ghost afterRefs = 1
+//@   ensures[all-records-visited] result == nil ==> logsDone
 //@   sets mergedFirst = first
 //@   sets mergedLast = last
 //@   sets mergedExp = expiration
-//@   loop 2 invariant[ref-step] yRefSeq == old(yRefSeq) && wRefSeq == old(wRefSeq) || refWrittenAsIs() || (refDropped() && first == 0 && yRefDel)
-//@   loop 3 invariant[log-step] refsDone && (yLogSeq == old(yLogSeq) && wLogSeq == old(wLogSeq) || (logWrittenAsIs() && !expired(expiration, yLogTime, yLogIdx)) || (logDropped() && expired(expiration, yLogTime, yLogIdx)))
-//@   loop 3 invariant[refs-untouched] wRefSeq == wRefAtYield
+//@   loop 2 invariant[ref-step] noneYet || refWrittenAsIs() || (refDropped() && first == 0 && yRefDel)
+//@   loop 3 invariant[log-step] (noneYet || (logWrittenAsIs() && !expired(expiration, yLogTime, yLogIdx)) || (logDropped() && expired(expiration, yLogTime, yLogIdx)))
 //@   modifies buflen, bufdata, lastDelta, lastSought, st.Stats.EntriesWritten, anyof(*Writer), anyof(*blockWriter), anyof(*paddedWriter), anyof(*tableIter), anyof(*indexedTableRefIter), anyof(*blockIter), taken, yielded, seekOn, seekName, seekIdx
 //@   ensures[no-lock-failure] result != ErrLockFailure
 //@   loop 1 invariant[range] first <= i && i <= last + 1 && (subtabs == nil || fresh(subtabs)) && len(subtabs) == i - first && (forall k int :: 0 <= k && k < len(subtabs) ==> iref(subtabs[k]) == st.stack[first + k] && istype(subtabs[k], *Reader))
@@ -1521,6 +1528,7 @@ package reftable
 //@   sets yRefDel = (ref.Value == nil && ref.TargetValue == nil && ref.Target == "") if result0
 //@   sets wRefAtYield = wRefSeq
 //@   sets refsDone = !result0 && result1 == nil
+//@   sets noneYet = false
 
 //@ func (*Iterator).NextLog
 //@   props C19 C07 C13
@@ -1540,6 +1548,7 @@ package reftable
 //@   sets yLogMsg = log.Message if result0
 //@   sets wLogAtYield = wLogSeq
 //@   sets logsDone = !result0 && result1 == nil
+//@   sets noneYet = false
 
 //@ iface Table.SeekRef
 //@   params refName
